@@ -614,6 +614,46 @@ func exhPairElem(idx int, kinds []string, twin bool, a, b []int) (kind string, a
 	return kind, a, b, bitIDs(h>>1, len(a)), bitIDs(h>>25, len(b)), h&1 == 1
 }
 
+// genPoison draws a poison call (see Poison) out of fns, one case in `every`.
+// It is drawn LAST in a case, so that the cases come out as they did before.
+func genPoison(t *rapid.T, every int, fns []string) *Poison {
+	if !vk.Rare(t, "poison", every) {
+		return nil
+	}
+	p := &Poison{Fn: rapid.SampledFrom(fns).Draw(t, "poisonFn"), After: rapid.IntRange(0, 3).Draw(t, "poisonAfter") == 0}
+	switch p.Fn {
+	case "editany", "lcsany": // mostly late: matches have been recorded by then
+		p.P = rapid.SampledFrom([]int{-1, -1, -2, rapid.IntRange(0, poisonMaxLen).Draw(t, "poisonAnyP")}).Draw(t, "poisonP")
+		p.Q = rapid.SampledFrom([]int{-1, -1, -2, rapid.IntRange(0, poisonMaxLen).Draw(t, "poisonAnyQ")}).Draw(t, "poisonQ")
+	default: // the last call, the one before, half way, anywhere
+		p.J = rapid.SampledFrom([]int{-2, -3, -2, rapid.IntRange(0, poisonMaxLen*poisonMaxLen).Draw(t, "poisonAnyJ")}).Draw(t, "poisonJ")
+	}
+	return p
+}
+
+var (
+	poisonLCS = []string{"lcsfunc", "editany", "lcsany", "lcsfunc", "lis", "lnds"}
+	poisonLIS = []string{"lis", "lnds", "lis", "lnds", "lcsfunc", "editany"}
+)
+
+// exhPoison gives one exhaustive case in 32 (by a hash of its index) a poison call.
+func exhPoison(idx int, fns []string) *Poison {
+	h := mix(idx ^ 0x5bd1e995)
+	if h%32 != 0 {
+		return nil
+	}
+	h >>= 5
+	return &Poison{Fn: fns[h%uint64(len(fns))], J: -1 - int(h>>8%4), P: -1 - int(h>>10%3), Q: -1 - int(h>>12%3), After: h>>16%4 == 0}
+}
+
+// genZeroKind: one case in `every` runs on a zero-size element type (drawn last).
+func genZeroKind(t *rapid.T, every int, kinds []string) string {
+	if !vk.Rare(t, "zeroSize", every) {
+		return ""
+	}
+	return rapid.SampledFrom(kinds).Draw(t, "zeroKind")
+}
+
 // ---------------------------------------------------------------------------
 // C11.
 
@@ -632,6 +672,14 @@ func genEditCase(t *rapid.T) EditCase {
 		}
 		c.Then = &th
 	}
+	// (the following are drawn last, so that the cases above come out as they always did)
+	if zk := genZeroKind(t, 16, zeroKindsCmp); zk != "" {
+		c.Elem, c.Share = zk, false
+		if c.Then != nil {
+			c.Then.Elem, c.Then.Share = zk, false
+		}
+	}
+	c.Poison = genPoison(t, 6, poisonLCS)
 	return c
 }
 
@@ -760,12 +808,20 @@ func TestC11Exhaustive(t *testing.T) {
 				a, b, ok := dec(i)
 				c := EditCase{}
 				c.Elem, c.Lhs, c.Rhs, c.LID, c.RID, c.Share = exhPairElem(i+s*7919, kindsComparable, true, a, b)
+				c.Poison = exhPoison(i+s*7919, poisonLCS)
 				return c, ok
 			}) {
 				break
 			}
 		}
 	}
+	// zero-size element types: a sequence is its length
+	const flatMax = 40
+	h.Note("zero-size element types (struct{}, [0]int): every pair of lengths <= %d; one case in 32 of this leg (by a hash of its index) is preceded or followed by a call whose element comparison panics and is recovered", flatMax)
+	e.level((flatMax+1)*(flatMax+1)*len(zeroKindsCmp), func(i int) (EditCase, bool) {
+		j := i / len(zeroKindsCmp)
+		return EditCase{Elem: zeroKindsCmp[i%len(zeroKindsCmp)], Lhs: zeros(j / (flatMax + 1)), Rhs: zeros(j % (flatMax + 1)), Poison: exhPoison(i, poisonLCS)}, true
+	})
 	e.finish(true)
 }
 
@@ -813,6 +869,22 @@ func TestC11Alias(t *testing.T) {
 // C12: LCS.
 
 func genLCSCase(t *rapid.T) LCSCase {
+	c := genLCSCase0(t)
+	// (drawn last, so that the cases come out as they always did)
+	if !c.Tol {
+		kinds := zeroKindsCmp
+		if c.Fold {
+			kinds = zeroKinds
+		}
+		if zk := genZeroKind(t, 16, kinds); zk != "" {
+			c.Elem, c.Share = zk, false
+		}
+	}
+	c.Poison = genPoison(t, 6, poisonLCS)
+	return c
+}
+
+func genLCSCase0(t *rapid.T) LCSCase {
 	if vk.Rare(t, "tolerance", 12) {
 		// values a step of 1 or 2 apart, with adjacent related pairs: |a-b| <= 1 is not transitive
 		n, m := rapid.IntRange(0, 12).Draw(t, "tolN"), rapid.IntRange(0, 12).Draw(t, "tolM")
@@ -926,12 +998,21 @@ func TestC12LCSExhaustive(t *testing.T) {
 				} else {
 					c.Elem, c.As, c.Bs, c.AID, c.BID, c.Share = exhPairElem(i+s*7919, kindsComparable, true, a, b)
 				}
+				c.Poison = exhPoison(i+s*7919, poisonLCS)
 				return c, ok
 			}) {
 				break
 			}
 		}
 	}
+	// zero-size element types: a sequence is its length
+	const flatMax = 30
+	h.Note("zero-size element types (struct{}, [0]int, and [0]func() for LCSFunc): every pair of lengths <= %d with LCS and with LCSFunc, layouts cycling; one case in 32 of this leg (by a hash of its index) is preceded or followed by a call whose element comparison panics and is recovered", flatMax)
+	e.level((flatMax+1)*(flatMax+1)*len(zeroKinds)*2, func(i int) (LCSCase, bool) {
+		j := i / (2 * len(zeroKinds))
+		c := LCSCase{Elem: zeroKinds[i/2%len(zeroKinds)], Fold: i%2 == 1, As: zeros(j / (flatMax + 1)), Bs: zeros(j % (flatMax + 1)), Lay: j % 4, Poison: exhPoison(i, poisonLCS)}
+		return c, c.Fold || c.Elem != kindZfn
+	})
 	e.finish(true)
 }
 
@@ -950,6 +1031,16 @@ func genSeqCase(t *rapid.T) SeqCase { return genSeqElem(t, genSeqInts(t), false)
 // never).  f64 gets negative zeros at a few positions (preferably where the
 // value is 0) and, in the natural order, sometimes NaNs.
 func genSeqElem(t *rapid.T, c SeqCase, big bool) SeqCase {
+	c = genSeqElem0(t, c, big)
+	// (drawn last, so that the cases come out as they always did)
+	if zk := genZeroKind(t, 16, zeroKinds); zk != "" && c.Cmp != "nat" && c.Cmp != "" {
+		c.Elem, c.Neg, c.NaN = zk, nil, nil
+	}
+	c.Poison = genPoison(t, 8, poisonLIS)
+	return c
+}
+
+func genSeqElem0(t *rapid.T, c SeqCase, big bool) SeqCase {
 	nat := c.Cmp == "nat" || c.Cmp == ""
 	kinds := kindsAny
 	if nat {
@@ -1251,12 +1342,19 @@ func TestC12LISExhaustive(t *testing.T) {
 						}
 					}
 				}
+				c.Poison = exhPoison(i+l*7919, poisonLIS)
 				return c, true
 			}) {
 				break
 			}
 		}
 	}
+	// zero-size element types: the input is its length (all elements equivalent)
+	const flatMax = 300
+	h.Note("zero-size element types (struct{}, [0]int, [0]func()) with LISFunc / LNDSFunc: every length <= %d with the reversed and the v>>1 comparison; one case in 32 of this leg (by a hash of its index) is preceded or followed by a call whose comparison panics and is recovered", flatMax)
+	e.level((flatMax+1)*len(zeroKinds)*2, func(i int) (SeqCase, bool) {
+		return SeqCase{Elem: zeroKinds[i/2%len(zeroKinds)], Cmp: cmpKinds[1+i%2], Vs: zeros(i / (2 * len(zeroKinds))), Poison: exhPoison(i, poisonLIS)}, true
+	})
 	e.finish(true)
 }
 
@@ -1418,7 +1516,52 @@ func genUtilCase(t *rapid.T) UtilCase {
 		c.Rows = rapid.SliceOfN(rapid.IntRange(0, 12), 0, 12).Draw(t, "rows")
 		c.K = rapid.IntRange(0, 13).Draw(t, "i")
 	}
+	// (drawn last, so that the cases above come out as they always did)
+	if vk.Rare(t, "zeroSize", 10) {
+		genZeroUtil(t, &c)
+	}
 	return c
+}
+
+// genZeroUtil turns the case into a call on a slice of zero-size elements;
+// where the function does not walk over the elements, half of the slices get
+// a length near 2^31, 2^32, 2^62, MaxInt/2 or MaxInt, with the argument
+// redrawn relative to it.
+func genZeroUtil(t *rapid.T, c *UtilCase) {
+	c.Elem = rapid.SampledFrom(zeroKinds).Draw(t, "zeroKind")
+	c.Dup, c.Before = nil, nil
+	if c.Fn == "Partition" {
+		c.Keep = []int{rapid.IntRange(0, 1).Draw(t, "zeroKeep")}
+	}
+	switch c.Fn {
+	case "Chunks", "Batches", "Head", "Tail", "At", "PtrAt":
+	default:
+		return
+	}
+	if !rapid.Bool().Draw(t, "zeroHuge") {
+		return
+	}
+	l := rapid.SampledFrom([]int{math.MaxInt, math.MaxInt, 1 << 62, math.MaxInt/2 + 1, 3 << 61, 1 << 32, 1 << 31, 1 << 53}).Draw(t, "hugeLen")
+	if d := rapid.IntRange(-70, 70).Draw(t, "hugeLenOff"); d <= 0 || l <= math.MaxInt-d {
+		l += d
+	}
+	c.N = l
+	off := rapid.IntRange(-2, 2).Draw(t, "hugeArgOff")
+	switch c.Fn {
+	case "Batches":
+		c.K = rapid.SampledFrom([]int{2, 3, 7, 64, 1, rapid.IntRange(0, 4096).Draw(t, "hugeBatches")}).Draw(t, "hugeK")
+	case "Chunks":
+		// few chunks: a divisor-like size, or the sizes around MaxInt-len
+		d := rapid.SampledFrom([]int{2, 3, 1, 7, 64, rapid.IntRange(1, 4096).Draw(t, "hugeDiv")}).Draw(t, "hugeChunksDiv")
+		c.K = rapid.SampledFrom([]int{l/d + off, l/d + 1, math.MaxInt - l + 1 + off, 0, l - 1}).Draw(t, "hugeK")
+	case "Head", "Tail":
+		c.K = rapid.SampledFrom([]int{l + off, l/2 + off, 1 + off, math.MaxInt, math.MaxInt - 1}).Draw(t, "hugeK")
+	default:
+		c.K = rapid.SampledFrom([]int{l + off, -l + off, l/2 + off, -l/2 + off, off, math.MaxInt, math.MinInt, math.MinInt + 1}).Draw(t, "hugeK")
+	}
+	if (c.Fn == "Head" || c.Fn == "Tail") && c.K < 0 {
+		c.K = 0 // (an argument that wrapped)
+	}
 }
 
 func TestC17Rand(t *testing.T) {
@@ -1484,6 +1627,22 @@ func TestC17Exhaustive(t *testing.T) {
 		}) {
 			break
 		}
+		// the same calls on slices of the zero-size element types (one kind per
+		// case, cycling), and Partition keeping everything / nothing
+		for _, keep := range []int{0, 1} {
+			for _, sp := range []int{0, 2} {
+				if n <= maxPart {
+					cases = append(cases, UtilCase{Fn: "Partition", N: n, Keep: []int{keep}, Spare: sp})
+				}
+			}
+		}
+		if !e.level(len(cases), func(i int) (UtilCase, bool) {
+			c := cases[i]
+			c.Elem = zeroKinds[(i+n)%len(zeroKinds)]
+			return c, true
+		}) {
+			break
+		}
 		if n <= maxPart {
 			if !e.level(2<<uint(n), func(i int) (UtilCase, bool) {
 				c := UtilCase{Fn: "Partition", N: n, Keep: digits(i/2, 2, n), Spare: 2 * (i % 2)}
@@ -1503,5 +1662,40 @@ func TestC17Exhaustive(t *testing.T) {
 			}
 		}
 	}
+	if !h.Failed() {
+		huge := hugeZeroCases()
+		h.Note("zero-size element types (struct{}, [0]int, [0]func(), cycling): every case above except the Partition patterns once more, lengths only; and %d directed calls on slices of 2^31 .. math.MaxInt elements (Batches, Chunks, Head, Tail, At, PtrAt), which take no memory", len(huge)*len(zeroKinds))
+		e.level(len(huge)*len(zeroKinds), func(i int) (UtilCase, bool) {
+			c := huge[i/len(zeroKinds)]
+			c.Elem = zeroKinds[i%len(zeroKinds)]
+			return c, true
+		})
+	}
 	e.finish(true)
+}
+
+// hugeLens are the lengths only a slice of zero-size elements can have.
+var hugeLens = []int{math.MaxInt, math.MaxInt - 1, math.MaxInt - 2, math.MaxInt - 5, math.MaxInt - 62, math.MaxInt - 63,
+	math.MaxInt/2 + 1, math.MaxInt / 2, math.MaxInt/2 + 2, 1 << 62, 1<<62 - 1, 1<<62 + 1, 3 << 61, 1 << 61, 1<<53 + 1, 1 << 32, 1<<32 - 1, 1<<31 + 1, 1 << 31}
+
+// hugeZeroCases are the directed calls on slices of hugeLens elements (the
+// element kind is filled in by the caller).
+func hugeZeroCases() []UtilCase {
+	var out []UtilCase
+	for _, l := range hugeLens {
+		for _, k := range []int{-1, 0, 1, 2, 3, 4, 5, 6, 7, 8, 9, 15, 16, 17, 63, 64, 65, 100, 1000, 4095, 4096} {
+			out = append(out, UtilCase{Fn: "Batches", N: l, K: k, Spare: k % 3})
+		}
+		for _, k := range []int{0, l, l - 1, l + 1, l / 2, l/2 + 1, l/2 - 1, l/3 + 1, l / 3, l / 5, l/7 + 1, l / 64, l/64 + 1, l/4096 + 1, math.MaxInt, math.MaxInt - 1, math.MaxInt - l + 1, math.MaxInt - l, math.MaxInt - l + 2} {
+			// (l+1 wraps for MaxInt: a negative n, which must panic)
+			out = append(out, UtilCase{Fn: "Chunks", N: l, K: k, Spare: max(k%3, 0)})
+		}
+		for _, k := range []int{0, 1, 2, l / 2, l - 1, l, l + 1, math.MaxInt, math.MaxInt - 1} {
+			out = append(out, UtilCase{Fn: "Head", N: l, K: k, Spare: 1}, UtilCase{Fn: "Tail", N: l, K: k, Spare: 1})
+		}
+		for _, k := range []int{0, 1, -1, -2, l / 2, -l / 2, l - 2, l - 1, l, -l + 1, -l, -l - 1, -l - 2, math.MaxInt, math.MaxInt - 1, math.MinInt, math.MinInt + 1, math.MinInt + 2} {
+			out = append(out, UtilCase{Fn: "At", N: l, K: k}, UtilCase{Fn: "PtrAt", N: l, K: k})
+		}
+	}
+	return out
 }
